@@ -9,7 +9,7 @@ import (
 var c12Spec = fw.Spec[progCase]{
 	ID:    "C12",
 	Level: "model_checking",
-	Rule: "complete enumeration of registration programs of <=N statements (quick 4, thorough 5), nesting <=3, over {Use(1), Group(prefix in {/g,x,/{v} (a variable in the prefix) | /h,y/,/g (the same relative prefix at another depth) | /g/h}, 0..2 middleware, also passed with spare slice capacity){...}, Route(0 | 1 variadic + 1 later Route.Use | own path starting with the text of the enclosing prefix | path ending in '/' (on a StrictLastSlash router)), programs of <=3 statements with a group also on a StrictLastSlash router, Controller(/c, 0|1 mw), Resource(/ | /Api/ (an upper-case letter in the base path), 0|1 mw)}; " +
+	Rule: "complete enumeration of registration programs of <=N statements (quick 4, thorough 5), nesting <=3, over {Use(1), Group(prefix in {/g,x,/{v} (a variable in the prefix) | /h,y/,/g (the same relative prefix at another depth) | /g/h}, 0..2 middleware, also passed with spare slice capacity){...}, Route(0 | 1 variadic + 1 later Route.Use | own path starting with the text of the enclosing prefix | path ending in '/' (on a StrictLastSlash router)), programs of <=3 statements with a group also on a StrictLastSlash router, Controller(/c, 0|1 mw), Resource(/ | /Api/ (an upper-case letter in the base path), 0|1 mw)}, plus a list of special programs (shared groups, duplicate routes, routes beginning with a variable, `/api-keys` next to `/api`, Any() inside groups, routes with an optional literal tail and no variable under prefixes of one to three literal segments); " +
 		"per registered route: path = concatenated prefixes, middleware count and request trace = the registration-program model, not reachable without the prefix; after every top-level statement a sentinel route must have no prefix and no group middleware; Routes() holds exactly the modelled routes; non-trivial = program containing a group, Use, controller or resource",
 	Assume: []string{"clean non-root prefixes", "handler identity = closure id allocated in program order"},
 	Bounds: func(tier string) map[string]any {
